@@ -262,6 +262,25 @@ func (cc *ClientConn) newStream(
 	wcancel()
 	if err != nil {
 		log.Error().Err(err).Msg("NewStream: failed to open")
+		if ctx.Err() != nil {
+			// A write cut short by its context may have reached the peer all the
+			// same, and the handler it started has no caller: tell the peer, as a
+			// stream's own teardown would (a reset for an unknown id is ignored).
+			rst := goatorepo.Rpc{
+				Id: id,
+				Header: &goatorepo.RequestHeader{
+					Method:      method,
+					Source:      cc.sourceAddress,
+					Destination: cc.destAddress,
+				},
+				Reset_: &goatorepo.Reset{Type: "RST_STREAM"},
+			}
+			rctx, rcancel := context.WithTimeout(context.Background(), 30*time.Second)
+			if rerr := rw.Write(rctx, &rst); rerr != nil {
+				log.Err(rerr).Str("method", method).Msg("NewStream: failed to send RST_STREAM")
+			}
+			rcancel()
+		}
 		// No stream will exist to run the teardown later on.
 		teardown()
 		return nil, err
